@@ -427,6 +427,8 @@ def run(ctx, tier):
     import c06
     results += c06.shared_freelist(ctx, rule='C10.shared-freelist')
     results += c03.release_sites(ctx, rule='C10.release-site')
+    # pages of an older snapshot go to the pending set and nowhere else; the free set grows only by release
+    results += c02.cow_free_set(ctx, rule='C10.cow.free-set')
     import profile
     results += profile.debug_pure(ctx, 'C10.debug-pure')
     return dict(
